@@ -90,6 +90,8 @@ def all_kinds_universe():
     """one member (and one attribute) of every primitive kind: the text of each is swept with every hostile literal"""
     ns = 'urn:vf:c10k'
     fields = [['k%d' % i, {'prim': k, 'facets': {}}] for i, k in enumerate(sorted(gen.PRIMS))]
+    # binary members in the two other encodings (the reference request carries base64 text there: one more malformed input)
+    fields += [['kx', {'prim': 'ByteArray', 'facets': {'encoding': 'hex'}}], ['ku', {'prim': 'ByteArray', 'facets': {'encoding': 'urlsafe_base64'}}]]
     attrs = [['a%d' % i, {'attr': {'prim': k, 'facets': {}}}] for i, k in enumerate(sorted(gen.PRIMS)) if k != 'ByteArray']
     KK = {'name': 'KK', 'ns': ns, 'base': None, 'has_xmldata': False, 'fields': fields + attrs}
     KE = {'name': 'KE', 'ns': ns, 'base': None, 'has_xmldata': False, 'fields': fields}
@@ -639,6 +641,45 @@ def raw_mutants(rng, kind, T, struct, tier):
     return out
 
 
+def href_graphs(data):
+    """SOAP section-5 multi-ref encoding: the first argument of a valid request replaced by an accessor (href) into a graph of
+    id-carrying elements appended to the Body: chains, direct and indirect cycles, cycles through ordinary child elements, fan-out"""
+    out = []
+    try:
+        root = etree.fromstring(data)
+    except Exception:
+        return out
+    body = [e for e in root if isinstance(e.tag, str) and etree.QName(e).localname == 'Body']
+    if not body or not len(body[0]) or not len(body[0][0]):
+        return out
+    shapes = {
+        'chain': '<m id="a"><k href="#b"/></m><m id="b"><k href="#c"/></m><m id="c"><k>1</k></m>',
+        'self_direct': '<m id="a"><k href="#a"/></m>',
+        'self_nested': '<m id="a"><c><k href="#a"/></c></m>',
+        'self_deep': '<m id="a"><c><d><e><k href="#a"/></e></d></c></m>',
+        'pair_direct': '<m id="a"><k href="#b"/></m><m id="b"><k href="#a"/></m>',
+        'pair_nested': '<m id="a"><c><k href="#b"/></c></m><m id="b"><c><d><k href="#a"/></d></c></m>',
+        'pair_mixed': '<m id="a"><k href="#b"/></m><m id="b"><c><k href="#a"/></c></m>',
+        'triangle_nested': '<m id="a"><c><k href="#b"/></c></m><m id="b"><k href="#c"/></m><m id="c"><c><k href="#a"/></c></m>',
+        'shared_target': '<m id="a"><k href="#z"/><l href="#z"/><c><n href="#z"/></c></m><m id="z"><k>1</k></m>',
+        'fan_out': ''.join('<m id="l%d">%s</m>' % (i, ''.join('<k href="#l%d"/>' % (i + 1) for _ in range(8))) for i in range(4)) + '<m id="l4"><k>1</k></m>',
+        'dangling_nested': '<m id="a"><c><k href="#nowhere"/></c></m>',
+        'id_on_accessor': '<m id="a" href="#a"/>',
+    }
+    for label, frag in sorted(shapes.items()):
+        d = copy.deepcopy(root)
+        b = [e for e in d if isinstance(e.tag, str) and etree.QName(e).localname == 'Body'][0]
+        arg = b[0][0]
+        for c in list(arg):
+            arg.remove(c)
+        arg.text = None
+        arg.set('href', '#l0' if label == 'fan_out' else '#a')
+        for el in etree.fromstring('<r>%s</r>' % frag):
+            b.append(el)
+        out.append(('href:' + label, etree.tostring(d, xml_declaration=True, encoding='UTF-8')))
+    return out
+
+
 def mime_mutants(rng, data, tier):
     """SOAP with attachments: the envelope as root part of a multipart/related body, and broken variants of that"""
     B = b'vfb'
@@ -793,6 +834,9 @@ def run(spec, R):
             if kind in ('soap11', 'soap12'):
                 for cls, m, ct in mime_mutants(rng, data, tier):
                     process(R, T, m, 'wsgi', cls, dict(repro, ctype=ct))
+                for i, (cls, m) in enumerate(href_graphs(data)):
+                    process(R, T, m, drivers[i % len(drivers)], cls, repro)
+                    R.count('href_graphs_sent')
     if len(R.samples) < 2:
         R.sample({'kind': kind, 'validator': validator, 'inputs': R.counters.get('inputs_processed'), 'fault_codes_seen': R.counters.get('fault_codes', [])[:12]})
 
